@@ -74,31 +74,33 @@ class ResolvePortRefs(ElabPass):
             + list(module.instbundles.values())
         )
 
-        # `PortRef`s used as members of (potentially nested) anonymous bundles, which keep no back-references to them
-        anon_members = list()
+        # The `PortRef`s which the connections of this Module actually use: directly, or within slices,
+        # concatenations and anonymous bundles. Instances create and keep a `PortRef` whenever a port is *looked at*,
+        # e.g. `print(inst.p)`, and slices and concatenations of them register themselves when they are *created*.
+        # Neither connects anything: a reference left behind by a connection since replaced,
+        # or made by an Instance which never became part of the Module, is not in use.
+        live = list()
 
-        def collect_anon_members(conn: Connectable) -> None:
-            if isinstance(conn, AnonymousBundle):
+        def collect_live(conn: Connectable) -> None:
+            if isinstance(conn, PortRef):
+                live.append(conn)
+            elif isinstance(conn, Slice):
+                collect_live(conn.parent)
+            elif isinstance(conn, Concat):
+                for part in conn.parts:
+                    collect_live(part)
+            elif isinstance(conn, AnonymousBundle):
                 for attr in conn._namespace.values():
-                    if isinstance(attr, PortRef):
-                        anon_members.append(attr)
-                    else:
-                        collect_anon_members(attr)
+                    collect_live(attr)
 
         for inst in instancelike:
             for conn in inst.conns.values():
-                collect_anon_members(conn)
+                collect_live(conn)
 
         def used(portref: PortRef) -> bool:
-            """Boolean indication of whether `portref` is used anywhere.
-            Instances create and keep a `PortRef` whenever a port is *looked at*, e.g. `print(inst.p)`.
-            That alone does not connect the port to anything."""
-            return bool(
-                portref._connected_ports
-                or portref._slices
-                or portref._concats
-                or portref in anon_members
-            )
+            return portref in live
+
+        ours = {id(inst) for inst in instancelike}
 
         # Collect up all `PortRef`s for all instances in the module
         # FIXME: move from SetList to a regular Set. Thus far breaks one test, somehow.
@@ -133,9 +135,12 @@ class ResolvePortRefs(ElabPass):
             else:  # Add ultimate signal `Source`s to the group
                 group.add(conn)
 
-            # And recursively follow its connected ports
+            # And recursively follow its connected ports.
+            # Only those of this Module's own Instances: e.g. the scalar Instance which `n * Inst(p=ref)`
+            # leaves behind remains among them.
             for connected_port in pref._connected_ports:
-                follow(connected_port, group)
+                if id(connected_port.inst) in ours:
+                    follow(connected_port, group)
 
         # Collect groups of connected `PortRef`s
         groups: List[List[Optional[Connectable]]] = list()
